@@ -1,4 +1,4 @@
-use super::swift_utils::{parse_max_length, parse_swift_chars};
+use super::swift_utils::{parse_length_range, parse_swift_chars};
 use crate::errors::ParseError;
 use crate::traits::SwiftField;
 use serde::{Deserialize, Serialize};
@@ -28,7 +28,7 @@ impl SwiftField for Field20 {
         Self: Sized,
     {
         // Parse the reference with max length of 16
-        let reference = parse_max_length(input, 16, "Field 20 reference")?;
+        let reference = parse_length_range(input, 1, 16, "Field 20 reference")?;
 
         // Validate SWIFT character set
         parse_swift_chars(&reference, "Field 20 reference")?;
